@@ -123,7 +123,7 @@ class Ctx:
         except Exception:
             pass
         rep = None
-        if replay is not None and ob.model is not None:
+        if replay is not None and (ob.model is not None or getattr(replay, "finds_own_model", False)):
             try:
                 rep = replay(con, ob)
             except Exception as e:
